@@ -176,3 +176,179 @@ Proof. reflexivity. Qed.
 
 Lemma endpoint_of_tcp : forall a, endpoint_of s_tcp a = ETcp a.
 Proof. reflexivity. Qed.
+
+(* ---------- refusals leave everything unchanged ---------- *)
+
+Theorem failed_bind_changes_nothing : forall ok s st w,
+  fst (fst (svc_bind ok s st w)) = OErr -> svc_bind ok s st w = (OErr, st, w).
+Proof.
+  intros ok s st w. unfold svc_bind.
+  destruct (sv_running st); [reflexivity|].
+  destruct (svc_parse s) as [p a| |]; simpl; [|reflexivity|discriminate].
+  destruct (os_listen ok (endpoint_of p a) w); simpl; [discriminate|reflexivity].
+Qed.
+Print Assumptions failed_bind_changes_nothing.
+
+Theorem bind_after_failure : forall ok1 s1 s2 st w p a, sv_running st = false ->
+  fst (fst (svc_bind ok1 s1 st w)) = OErr -> svc_parse s2 = AOk p a ->
+  os_listen true (endpoint_of p a) w <> None ->
+  let '(_, st1, w1) := svc_bind ok1 s1 st w in fst (fst (svc_bind true s2 st1 w1)) = OOk.
+Proof.
+  intros ok1 s1 s2 st w p a Hr Hf Hp Hl.
+  rewrite (failed_bind_changes_nothing ok1 s1 st w Hf).
+  unfold svc_bind. rewrite Hr, Hp.
+  destruct (os_listen true (endpoint_of p a) w); [reflexivity|congruence].
+Qed.
+Print Assumptions bind_after_failure.
+
+(* ---------- filesystem effects ---------- *)
+
+Definition bytes_eq_dec : forall x y : bytes, {x = y} + {x <> y} := list_eq_dec N.eq_dec.
+
+Lemma remove_file_not_in : forall p l, ~ In p (remove_file p l).
+Proof.
+  intros p l Hi. unfold remove_file in Hi. apply filter_In in Hi. destruct Hi as [_ Hb].
+  rewrite bytes_eqb_refl in Hb. discriminate.
+Qed.
+
+Lemma remove_file_other : forall p q l, q <> p -> In q l -> In q (remove_file p l).
+Proof.
+  intros p q l Hne Hi. unfold remove_file. apply filter_In. split; [exact Hi|].
+  assert (Hb : bytes_eqb p q = false) by (apply bytes_eqb_neq; congruence).
+  rewrite Hb. reflexivity.
+Qed.
+
+Lemma os_listen_file : forall path w,
+  os_listen true (EFile path) w =
+  Some (mkWorld (path :: remove_file path (w_files w))
+                (EFile path :: remove_open (EFile path) (w_open w))).
+Proof. reflexivity. Qed.
+
+Theorem fs_bind_creates_and_replaces : forall s st w path,
+  sv_running st = false -> svc_parse s = AOk s_unix path -> is_abstract path = false ->
+  let '(r, st', w') := svc_bind true s st w in
+  r = OOk /\ In path (w_files w') /\ sv_listener st' = Some (EFile path)
+  /\ count_occ bytes_eq_dec (w_files w') path = 1%nat.
+Proof.
+  intros s st w path Hr Hp Ha. unfold svc_bind. rewrite Hr, Hp.
+  rewrite (endpoint_of_unix_file path Ha), os_listen_file.
+  split; [reflexivity|]. split; [left; reflexivity|]. split; [reflexivity|].
+  cbn [w_files]. rewrite count_occ_cons_eq by reflexivity.
+  f_equal. apply count_occ_not_In. apply remove_file_not_in.
+Qed.
+Print Assumptions fs_bind_creates_and_replaces.
+
+(* other socket files are untouched by the replacement *)
+Theorem fs_bind_keeps_others : forall s st w path q,
+  sv_running st = false -> svc_parse s = AOk s_unix path -> is_abstract path = false ->
+  q <> path -> (In q (w_files (snd (svc_bind true s st w))) <-> In q (w_files w)).
+Proof.
+  intros s st w path q Hr Hp Ha Hne. unfold svc_bind. rewrite Hr, Hp.
+  rewrite (endpoint_of_unix_file path Ha), os_listen_file. cbn [snd w_files]. split.
+  - intros [He|Hi]; [congruence|]. unfold remove_file in Hi. apply filter_In in Hi. tauto.
+  - intro Hi. right. apply remove_file_other; assumption.
+Qed.
+Print Assumptions fs_bind_keeps_others.
+
+Theorem shutdown_removes_socket : forall st w path,
+  sv_listener st = Some (EFile path) -> ~ In path (w_files (snd (svc_stop st w))).
+Proof.
+  intros st w path Hl. unfold svc_stop. rewrite Hl. cbn [snd os_close w_files].
+  apply remove_file_not_in.
+Qed.
+Print Assumptions shutdown_removes_socket.
+
+(* ---------- reachability ---------- *)
+
+Lemma endpoint_eqb_refl : forall e, endpoint_eqb e e = true.
+Proof. destruct e; simpl; apply bytes_eqb_refl. Qed.
+
+Lemma endpoint_eqb_eq : forall e f, endpoint_eqb e f = true <-> e = f.
+Proof.
+  intros e f. split.
+  - destruct e, f; simpl; intro H; try discriminate; apply bytes_eqb_eq in H; congruence.
+  - intro H. subst. apply endpoint_eqb_refl.
+Qed.
+
+Theorem served_endpoint_reachable : forall s st w p a,
+  svc_parse s = AOk p a -> sv_running st = true ->
+  sv_listener st = Some (endpoint_of p a) ->
+  (match endpoint_of p a with ETcp hp => ends_with_port0 hp = false | _ => True end) ->
+  client_connect s st w = OOk.
+Proof.
+  intros s st w p a Hp Hr Hl H0. unfold client_connect.
+  rewrite (both_sides_agree s p a Hp), Hr, Hl, endpoint_eqb_refl.
+  apply svc_parse_ok_iff in Hp. destruct Hp as [_ Hpa].
+  assert (Hpr : bytes_eqb p s_unix || bytes_eqb p s_tcp = true).
+  { destruct Hpa as [[Hu _]|Ht]; subst p; rewrite bytes_eqb_refl;
+      [reflexivity|apply orb_true_r]. }
+  rewrite Hpr. cbn [andb].
+  destruct (endpoint_of p a) as [f|n|hp]; try reflexivity.
+  rewrite H0. reflexivity.
+Qed.
+Print Assumptions served_endpoint_reachable.
+
+(* converse direction: a client only gets through to the endpoint being served *)
+Theorem connect_ok_inv : forall s st w, client_connect s st w = OOk ->
+  exists p a, client_parse s = AOk p a /\ (p = s_unix \/ p = s_tcp) /\
+    sv_running st = true /\ sv_listener st = Some (endpoint_of p a).
+Proof.
+  intros s st w H. unfold client_connect in H.
+  destruct (client_parse s) as [p a| |]; try discriminate.
+  exists p, a. split; [reflexivity|].
+  destruct ((bytes_eqb p s_unix || bytes_eqb p s_tcp) && sv_running st) eqn:E1;
+    [|discriminate].
+  apply andb_true_iff in E1. destruct E1 as [Hp Hr].
+  cbn [andb] in H. destruct (sv_listener st) as [e|]; [|discriminate].
+  destruct (endpoint_eqb e (endpoint_of p a)) eqn:Ee; [|discriminate].
+  apply endpoint_eqb_eq in Ee. subst e.
+  split; [|split; [exact Hr|reflexivity]].
+  apply orb_true_iff in Hp. destruct Hp as [Hp|Hp]; apply bytes_eqb_eq in Hp; tauto.
+Qed.
+Print Assumptions connect_ok_inv.
+
+(* ---------- the pre-fix behaviour is refuted ---------- *)
+
+Definition ex_unix_colon : bytes := [117; 110; 105; 120; 58].            (* "unix:" *)
+Definition ex_garbage : bytes := [103; 97; 114; 98; 97; 103; 101].       (* "garbage" *)
+Definition ex_path : bytes := [47; 114; 117; 110; 47; 120].              (* "/run/x" *)
+
+Theorem unchecked_parse_can_panic : exists s p a, svc_parse_unchecked s p a = APanic.
+Proof. exists ex_unix_colon, [], []. vm_compute. reflexivity. Qed.
+Print Assumptions unchecked_parse_can_panic.
+
+(* "unix:" panics whatever was bound before; the fixed parser refuses it *)
+Theorem unchecked_unix_colon_always_panics : forall p a,
+  svc_parse_unchecked ex_unix_colon p a = APanic /\ svc_parse ex_unix_colon = AErr.
+Proof. intros p a. split; reflexivity. Qed.
+Print Assumptions unchecked_unix_colon_always_panics.
+
+Theorem unchecked_parse_reuses_stale :
+  exists s p a, svc_parse_unchecked s p a = AOk p a /\ svc_parse s = AErr.
+Proof. exists ex_garbage, s_unix, ex_path. split; vm_compute; reflexivity. Qed.
+Print Assumptions unchecked_parse_reuses_stale.
+
+(* in general: any colon-free string is accepted with the previous (non-degenerate) pair *)
+Theorem unchecked_reuses_any_stale : forall s p a, ~ In 58 s -> a <> [] ->
+  svc_parse_unchecked s p a = AOk p a /\ svc_parse s = AErr.
+Proof.
+  intros s p a Hn Ha. split; [|apply refuses_without_colon; exact Hn].
+  unfold svc_parse_unchecked, split_addr. rewrite (split2_none 58 s Hn).
+  destruct (bytes_eqb p s_unix); [destruct a; [contradiction|reflexivity]|reflexivity].
+Qed.
+Print Assumptions unchecked_reuses_any_stale.
+
+(* ---------- a concrete run ---------- *)
+Definition ex_addr : bytes := [117; 110; 105; 120; 58] ++ ex_path.                 (* "unix:/run/x" *)
+Definition ex_addr_mode : bytes := ex_addr ++ [59; 109; 111; 100; 101; 61; 48].   (* "unix:/run/x;mode=0" *)
+Definition ex_world : world := mkWorld [ex_path] [].                               (* a stale socket file *)
+
+Example run_bind_serve_connect_stop :
+  let '(r1, st1, w1) := svc_bind true ex_garbage svc_init ex_world in
+  let '(r2, st2, w2) := svc_bind true ex_addr_mode st1 w1 in
+  let '(r3, st3) := svc_start st2 in
+  let c := client_connect ex_addr st3 w2 in
+  let '(st4, w4) := svc_stop st3 w2 in
+  (r1, r2, r3, c) = (OErr, OOk, OOk, OOk) /\ w_files w2 = [ex_path] /\ w_files w4 = []
+  /\ st4 = svc_init.
+Proof. vm_compute. repeat split. Qed.
